@@ -1,7 +1,7 @@
 (* C09 — proofs about the end-of-stream decision logic (Conc/TlsEof.v), the pump (Conc/TlsPump.v) and the ideal
    record layer (Conc/IdealTls.v). *)
 From Coq Require Import ZArith List Bool Lia ZifyBool.
-From EN Require Import Lib.Bytes Conc.TlsBase Conc.TlsPump Conc.TlsEof Conc.IdealTls Gen.ParamsC09.
+From EN Require Import Lib.Bytes Conc.TlsBase Conc.TlsPump Conc.TlsEof Conc.IdealTls Gen.ParamsC09 Proofs.Ideal_proofs.
 
 (* ------------------------------------------------------------------ decision tables (finite case analysis) *)
 
@@ -266,34 +266,11 @@ Variable E D : byte -> byte.
 Variable M : nat.
 Hypothesis DE : forall x, D (E x) = x.
 
-Lemma map_DE : forall p, map D (map E p) = p.
-Proof. induction p; cbn; [reflexivity | rewrite DE, IHp; reflexivity]. Qed.
-
-Lemma parse1_prefix : forall t p rest k,
-  parse1 D (firstn k (enc E t p ++ rest)) =
-    if Nat.leb (2 + length p) k then Some (t, p, firstn (k - (2 + length p)) rest) else None.
-Proof.
-  intros t p rest k. unfold enc. cbn [app].
-  destruct k as [| [| k]]; [reflexivity | reflexivity |].
-  cbn [firstn parse1]. rewrite Nat2N.id.
-  rewrite firstn_length, app_length, (map_length E p).
-  destruct (Nat.leb (length p) (Nat.min k (length p + length rest))) eqn:L1;
-    destruct (Nat.leb (2 + length p) (S (S k))) eqn:L2; try lia.
-  - f_equal. f_equal; [f_equal |].
-    + rewrite firstn_firstn. replace (Nat.min (length p) k) with (length p) by lia.
-      rewrite <- (map_length E p) at 1. rewrite firstn_app, Nat.sub_diag, firstn_all. cbn. rewrite app_nil_r. apply map_DE.
-    + rewrite skipn_firstn_comm. rewrite <- (map_length E p) at 2. rewrite skipn_app, Nat.sub_diag, skipn_all. cbn.
-      reflexivity.
-  - reflexivity.
-Qed.
-
 Definition data_stream (recs : list bytes) : bytes := concat (map (enc E T_DATA) recs) ++ close_notify E.
 
 Lemma data_stream_cons : forall r recs, data_stream (r :: recs) = enc E T_DATA r ++ data_stream recs.
 Proof. intros. unfold data_stream. cbn. rewrite app_assoc. reflexivity. Qed.
 
-Lemma enc_length : forall t p, length (enc E t p) = 2 + length p.
-Proof. intros. unfold enc. cbn. rewrite map_length. reflexivity. Qed.
 
 (* a reader whose incoming BIO holds a proper prefix of (data records ++ close notification) and is at end-of-file
    never reports a clean end-of-stream, whatever has been buffered already *)
@@ -313,11 +290,11 @@ Proof.
       assert (Hnone : parse1 D (i_rbio s) = None).
       { rewrite Hbio. unfold data_stream. cbn [map concat app].
         replace (close_notify E) with (enc E T_ALERT [] ++ []) by (rewrite app_nil_r; reflexivity).
-        rewrite parse1_prefix. unfold data_stream, close_notify, enc in Hk. cbn in Hk.
+        rewrite (parse1_prefix E D DE). unfold data_stream, close_notify, enc in Hk. cbn in Hk.
         destruct (Nat.leb (2 + length (@nil byte)) k) eqn:L; [apply Nat.leb_le in L; cbn in L; exfalso; lia | reflexivity]. }
       rewrite Hnone in Hin. unfold starved in Hin. rewrite Heof in Hin. destruct Hin as [<- | []]. auto.
-    + rewrite Hbio, data_stream_cons, parse1_prefix in Hin.
-      rewrite data_stream_cons, app_length, enc_length in Hk.
+    + rewrite Hbio, data_stream_cons, (parse1_prefix E D DE) in Hin.
+      rewrite data_stream_cons, app_length, (enc_length E) in Hk.
       destruct (Nat.leb (2 + length r) k) eqn:L.
       * apply Nat.leb_le in L. replace (N.eqb T_DATA T_DATA) with true in Hin by reflexivity.
         destruct r as [| r0 r'].
